@@ -38,12 +38,74 @@ def write_if_changed(relpath: str, text: str) -> bool:
     return True
 
 
+def guard_module(mod: ast.Module):
+    """fail closed on module-level code that could change, at import time, what a module-level name means
+    after its definition was read: a name bound twice (def after def, assignment after def, ...), a
+    decorated function or class, augmented / subscript / attribute assignment or `del` on a module-level
+    name, a method call statement on one (`tbl.update(...)`), or a compound statement (for / while / with /
+    try / if other than `if TYPE_CHECKING`) that stores to or calls methods on one."""
+    if getattr(mod, '_guarded', False):
+        return
+    bound = {}
+
+    def bind(name, node):
+        if name in bound:
+            fail(node, f'module-level name {name!r} is bound more than once')
+        bound[name] = node
+
+    def names_in(node):
+        return {n.id for n in ast.walk(node) if isinstance(n, ast.Name)}
+
+    # first pass: every module-level binding
+    for node in mod.body:
+        if isinstance(node, (ast.FunctionDef, ast.ClassDef, ast.AsyncFunctionDef)):
+            if node.decorator_list and not isinstance(node, ast.ClassDef):
+                fail(node, f'decorated module-level function {node.name!r}')
+            bind(node.name, node)
+        elif isinstance(node, ast.Assign):
+            for t in node.targets:
+                if isinstance(t, ast.Name):
+                    bind(t.id, node)
+        elif isinstance(node, ast.AnnAssign) and isinstance(node.target, ast.Name) and node.value is not None:
+            bind(node.target.id, node)
+    # second pass: anything that mutates or rebinds them
+    for node in mod.body:
+        if isinstance(node, ast.AugAssign):
+            if names_in(node.target) & set(bound):
+                fail(node, 'augmented assignment to a module-level name')
+        elif isinstance(node, (ast.Assign, ast.AnnAssign, ast.Delete)):
+            targets = node.targets if isinstance(node, (ast.Assign, ast.Delete)) else [node.target]
+            for t in targets:
+                if not isinstance(t, ast.Name) and names_in(t) & set(bound):
+                    fail(node, 'subscript / attribute assignment or del on a module-level name')
+                if isinstance(node, ast.Delete) and isinstance(t, ast.Name) and t.id in bound:
+                    fail(node, 'del of a module-level name')
+        elif isinstance(node, ast.Expr) and isinstance(node.value, ast.Call):
+            f = node.value.func
+            if isinstance(f, ast.Attribute) and names_in(f.value) & set(bound):
+                fail(node, 'method call statement on a module-level name')
+        elif isinstance(node, (ast.For, ast.While, ast.With, ast.Try, ast.If, ast.Global)):
+            if isinstance(node, ast.If) and 'TYPE_CHECKING' in ast.dump(node.test):
+                continue
+            for sub in ast.walk(node):
+                if isinstance(sub, ast.Name) and isinstance(sub.ctx, (ast.Store, ast.Del)) and sub.id in bound:
+                    fail(node, 'module-level compound statement rebinds a module-level name')
+                if isinstance(sub, ast.Call) and isinstance(sub.func, ast.Attribute) and names_in(sub.func.value) & set(bound):
+                    fail(node, 'module-level compound statement calls a method on a module-level name')
+                if isinstance(sub, (ast.Subscript, ast.Attribute)) and isinstance(sub.ctx, (ast.Store, ast.Del)) \
+                        and names_in(sub) & set(bound):
+                    fail(node, 'module-level compound statement mutates a module-level name')
+    mod._guarded = True
+
+
 def top_level_functions(mod: ast.Module):
+    guard_module(mod)
     return {n.name: n for n in mod.body if isinstance(n, ast.FunctionDef)}
 
 
 def top_level_assigns(mod: ast.Module):
     """name -> value node, for simple `x = ...` and `x: T = ...` at module level."""
+    guard_module(mod)
     out = {}
     for n in mod.body:
         if isinstance(n, ast.Assign) and len(n.targets) == 1 and isinstance(n.targets[0], ast.Name):
